@@ -2,50 +2,61 @@
 (* Trace validation for C13.  A trace is the concatenation of runs; every run is
 
      {"e":"reset","tool":T,"class":"ro"|"rw","state":"<profile>/<variant>","inv":"<invocation id>"}
-     the iotrace.so events of the target, in order (harness/iotrace.c):
+     the iotrace.so events of the target (obj = 0) and of the auxiliary files of the command line (obj >= 1: the -z
+     undo file, the undo log replayed by e2undo; protocol in ToolRunZ.tla), in order (harness/iotrace.c), each with obj:
         open {fd, acc, creat, trunc} | pwrite / write / pwritev {fd, off_hi, off_lo, len} | ftruncate {fd, off_hi, off_lo}
         | fallocate {fd, off_hi, off_lo, len, x = mode} | fsync {fd} | close {fd}
      {"e":"exit","code":c,"sig":s,"digest_equal":0|1}        written by checks/c13.py (sha256 before = after)
 
-   Every line must be the ToolRun step of that system call.  In class "ro" no effective write-class step is enabled,
+   Every line must be the ToolRunZ step of that system call on that object; write-class calls on an auxiliary file are
+   steps of every class and never touch the device.  In class "ro" no effective write-class step is enabled,
    so a pwrite / write / ftruncate / fallocate on a writable descriptor of the target, or an open with O_TRUNC /
    O_CREAT, makes the trace REJECTED at that line.  The exit line is rejected when the digest changed although the
    model saw no modification (a write that went around the recorder).  A run killed by a signal (sig # 0: crash,
    or the harness' timeout) takes the environment step Killed -- property C06 judges it, not this one -- but all of
    the above still applies to it.  RoUnmodified and ExitDocumented are evaluated after every line.            *)
-EXTENDS ToolRun, Json, IOUtils, Sequences, TLC
+EXTENDS ToolRunZ, Json, IOUtils, Sequences, TLC
 VARIABLES l
-tvars == <<vars, l>>
+tvars == <<varsZ, l>>
 Tr == ndJsonDeserialize(IOEnv.TRACE)
 
 IsEvent(e) == l <= Len(Tr) /\ Tr[l].e = e /\ l' = l + 1
 Ended == pc \in {"idle", "exited", "killed"}
+\* obj = 0: the descriptor is one of the TARGET; obj >= 1: of an auxiliary file named on the command line (the -z undo
+\* file, the undo log replayed by e2undo) -- iotrace.so reports which path of VERIF_IOTRACE_TARGET matched
+OnTarget == Tr[l].obj = 0
 
 TReset == /\ IsEvent("reset") /\ Ended
           /\ Tr[l].tool \in ToolNames /\ Tr[l].class \in Classes
           /\ tool' = Tr[l].tool /\ class' = Tr[l].class
           /\ device' = 0 /\ dev0' = 0 /\ open' = {} /\ modified' = FALSE /\ refused' = 0
           /\ pc' = "run" /\ code' = -1 /\ sig' = 0
+          /\ auxopen' = {} /\ auxmod' = FALSE
 
-TOpen == IsEvent("open") /\ Open(Tr[l].fd, Tr[l].acc, Tr[l].trunc = 1 \/ Tr[l].creat = 1)
+TOpen == /\ IsEvent("open")
+         /\ IF OnTarget THEN TOpenZ(Tr[l].fd, Tr[l].acc, Tr[l].trunc = 1 \/ Tr[l].creat = 1)
+                        ELSE AuxOpen(Tr[l].fd, Tr[l].acc, Tr[l].trunc = 1 \/ Tr[l].creat = 1)
 
 \* offsets are logged split at 2^31; only their sign matters to the protocol
 WrEvent == {"pwrite", "write", "pwritev"}
+AuxWr   == AuxWrite(Tr[l].fd) \/ AuxRefused(Tr[l].fd)
 TWrite  == /\ l <= Len(Tr) /\ Tr[l].e \in WrEvent /\ l' = l + 1
-           /\ \/ DevWrite(Tr[l].fd, Tr[l].off_lo, Tr[l].len)
-              \/ DevWriteRefused(Tr[l].fd)
-TTrunc  == IsEvent("ftruncate") /\ (DevTruncate(Tr[l].fd, Tr[l].off_lo) \/ DevWriteRefused(Tr[l].fd))
-TFalloc == IsEvent("fallocate") /\ (DevFallocate(Tr[l].fd, Tr[l].x, Tr[l].off_lo, Tr[l].len) \/ DevWriteRefused(Tr[l].fd))
-TFsync  == IsEvent("fsync") /\ DevFsync(Tr[l].fd)
-TClose  == IsEvent("close") /\ Close(Tr[l].fd)
+           /\ IF OnTarget THEN TWriteZ(Tr[l].fd, Tr[l].off_lo, Tr[l].len) \/ TRefusedZ(Tr[l].fd) ELSE AuxWr
+TTrunc  == /\ IsEvent("ftruncate")
+           /\ IF OnTarget THEN TTruncZ(Tr[l].fd, Tr[l].off_lo) \/ TRefusedZ(Tr[l].fd) ELSE AuxWr
+TFalloc == /\ IsEvent("fallocate")
+           /\ IF OnTarget THEN TFallocZ(Tr[l].fd, Tr[l].x, Tr[l].off_lo, Tr[l].len) \/ TRefusedZ(Tr[l].fd) ELSE AuxWr
+TFsync  == IsEvent("fsync") /\ IF OnTarget THEN TFsyncZ(Tr[l].fd) ELSE AuxFsync(Tr[l].fd)
+TClose  == IsEvent("close") /\ IF OnTarget THEN TCloseZ(Tr[l].fd) ELSE AuxClose(Tr[l].fd)
 
-\* the digest may only differ if the model saw an effective write-class call
+\* the digest may only differ if the model saw an effective write-class call ON THE TARGET
 DigestAgrees == Tr[l].digest_equal = 0 => modified
-TExit   == IsEvent("exit") /\ Tr[l].sig = 0 /\ ExitAny(Tr[l].code) /\ DigestAgrees
-TKilled == IsEvent("exit") /\ Tr[l].sig # 0 /\ KilledAny(Tr[l].sig) /\ DigestAgrees
+TExit   == IsEvent("exit") /\ Tr[l].sig = 0 /\ ExitAnyZ(Tr[l].code) /\ DigestAgrees
+TKilled == IsEvent("exit") /\ Tr[l].sig # 0 /\ KilledAnyZ(Tr[l].sig) /\ DigestAgrees
 
 TraceInit == /\ tool = "e2fsck" /\ class = "ro" /\ device = 0 /\ dev0 = 0 /\ open = {} /\ modified = FALSE
              /\ refused = 0 /\ pc = "idle" /\ code = -1 /\ sig = 0 /\ l = 1
+             /\ auxopen = {} /\ auxmod = FALSE
 TraceNext == TReset \/ TOpen \/ TWrite \/ TTrunc \/ TFalloc \/ TFsync \/ TClose \/ TExit \/ TKilled
 TraceSpec == TraceInit /\ [][TraceNext]_tvars
 \* accepted = every line consumed and the last run ended
